@@ -553,3 +553,13 @@ class StateSampler:
 
     def states(self, prefix):
         return ["%s%r" % (prefix, t) for t in sorted(self.seen)]
+
+
+def stuck(sim, cyc, limit=20000):
+    """Progress watchdog shared by the frontend checks: True when the event log (every handshake of every agent is logged) has not grown
+    for `limit` cycles.  It only shortens runs that would otherwise spin to their cycle cap; the verdict (hang) is the same."""
+    w = getattr(sim, "_wd", None)
+    if w is None or w[0] != sim.nev:
+        sim._wd = (sim.nev, cyc)
+        return False
+    return cyc - w[1] > limit
